@@ -606,11 +606,25 @@ def later_generation_case(ck, rng, i):
     c1 = sa.child_sas[0]
     wide_i, wide_r = sel('10.1.0.0', '10.1.255.255', 0, 65535, 0), sel('10.2.0.0', '10.2.255.255', 0, 65535, 0)
     sim.expire(a, bytes(c1.inbound_spi), False, daddr=S.A4)
-    inst, _ = answer_child()
-    answer_informational()          # the DELETE of the replaced SA
-    if inst != 2 or sa.state.name != 'ESTABLISHED':
-        ck.count('later.first_rekey_failed')
-        return
+    first = (None, 43, None, 14, 38, 44)[(i // len(variants)) % 6]
+    sim.case['first_rekey'] = 'honest' if first is None else f'refused-with-notification-{first}'
+    if first is None:
+        inst, _ = answer_child()
+        answer_informational()          # the DELETE of the replaced SA
+        if inst != 2 or sa.state.name != 'ESTABLISHED':
+            ck.count('later.first_rekey_failed')
+            return
+    else:
+        # ... or the responder turns the first rekey down (TEMPORARY_FAILURE as in a simultaneous rekey, NO_PROPOSAL_CHOSEN, TS_UNACCEPTABLE, CHILD_SA_NOT_FOUND): whatever
+        # the initiator remembers of that attempt plays no part in the checks of the NEXT negotiation
+        hdr_, _inner, _i2 = p.open(sim.net.pop(0).data)
+        sim.inject(a, S.B4, S.A4, p.seal(36, hdr_['mid'], [{'type': codec.NOTIFY, 'critical': False, 'proto': 0, 'spi': b'', 'ntype': first, 'data': b''}], True))
+        answer_informational()
+        sim.net.clear()
+        if sa.state.name != 'ESTABLISHED' or not sa.child_sas:
+            ck.count('later.ike_sa_or_child_gone_after_the_refused_rekey')
+            return
+        ck.count('later.runs_after_a_refused_rekey')
     ck.count('later.runs')
     if variant.startswith('rekey2-'):
         c2 = sa.child_sas[-1]
@@ -633,7 +647,7 @@ def later_generation_case(ck, rng, i):
         inst, offered = answer_child(ts)
         ok = variant == 'honest'
     ck.seen('later.variants', variant)
-    ck.nontrivial(('later-generation', variant, inst))
+    ck.nontrivial(('later-generation', variant, inst, first))
     if ok and inst != 2:
         ck.violation(f'honest-answer-on-a-later-exchange-not-installed:{variant}', {'newsa': inst}, sim.case)
     if ok is False and inst:
@@ -833,7 +847,7 @@ def run(ck):
     for i in range(40 if not thorough else 4000):
         if ck.mine(i):
             rekey_case(ck, ck.rng('rekey', i), i)
-    for i in range(36 if not thorough else 1800):
+    for i in range(54 if not thorough else 1800):
         if ck.mine(i):
             later_generation_case(ck, ck.rng('later', i), i)
     for i in range(4 * len(REKEY_VARIANTS) if not thorough else 200 * len(REKEY_VARIANTS)):
@@ -861,6 +875,7 @@ def verdict(ck):
     ck.floor('crafted rekey requests arriving while the responder waits for the answer to its own DELETE / rekey of another CHILD_SA', c['crafted_rekey.requests_arriving_while_the_responder_waits_for_an_answer_of_its_own'], 40)
     ck.floor('crafted rekey requests with equal selectors installed', c['crafted_rekey.equal'], 4)
     ck.floor('initiator checks on later exchanges (after a completed rekey)', c['later.runs'], 30)
+    ck.floor('initiator checks on exchanges that follow a REFUSED rekey', c['later.runs_after_a_refused_rekey'], 12)
     ck.floor('later-exchange variants', len(ck.sets['later.variants']), 9)
     ck.floor('rekeys with equal selectors', c['rekey.selectors_equal'], 40)
     return {'exhaustive': True}
